@@ -297,6 +297,9 @@ impl Prop for C01 {
             return RunOut::skip("replay-fast-forward-output-flood");
         }
         let mut o = RunOut::pass();
+        if st.batch > 1 {
+            o.count(&format!("schedule.late-loop-{}ms-per-iteration", st.batch), 1);
+        }
         if let Some(p) = case.param("pop") {
             o.count(&format!("pop.{p}"), 1);
         }
